@@ -3,7 +3,9 @@
      store.rs   load_jumbf_from_stream / handle_remote_manifest / fetch_remote_manifest
                 (verify.remote_manifest_fetch; only when no embedded manifest was found)
      claim.rs   check_ocsp_status -> crypto/cose/ocsp.rs check_ocsp_status (OcspFetchPolicy from verify.ocsp_fetch;
-                a stapled response suppresses the fetch) -> crypto/ocsp/fetch.rs (needs an AIA OCSP responder)
+                a stapled response settles the question only when it is usable and conclusive (revoked / not
+                revoked); otherwise the code falls through to the fetch policy as if nothing had been stapled —
+                fix fb08c71da) -> crypto/ocsp/fetch.rs (needs an AIA OCSP responder)
      ingredient.rs add_stream_internal: Store::get_manifest_labels_for_ocsp (builder.certificate_status_fetch with
                 builder.certificate_status_should_override = Some(false)) -> get_ocsp_response_ders
      cose_sign / Signer::send_timestamp_request (only when the signer has a time_authority_url)
@@ -24,7 +26,9 @@ Inductive akind :=
   | ARemoteEmbedded    (* embedded manifest and a remote reference *)
   | ANone              (* neither *)
   | AEmbeddedAia       (* embedded manifest, signing certificate names an OCSP responder, nothing stapled *)
-  | AEmbeddedStapled   (* embedded manifest with a stapled OCSP response *)
+  | AEmbeddedStapled   (* embedded manifest with a stapled OCSP response that is usable and conclusive *)
+  | AEmbeddedStapledUnusable (* embedded manifest + one ingredient manifest, both with a stapled response that is
+                               present but not usable/conclusive, both certificates naming a responder (ocsp.jpg) *)
   | ARemoteOnlyAia.    (* remote-only; the remote manifest's certificate names an OCSP responder *)
 
 Record asset := A { kind : akind; url : N }.
@@ -43,12 +47,19 @@ Inductive outcome :=
   | OUnmodelled.              (* outcome not transcribed (signing with an inaccessible-manifest ingredient) *)
 
 Definition has_embedded (k : akind) : bool :=
-  match k with AEmbedded | ARemoteEmbedded | AEmbeddedAia | AEmbeddedStapled => true | _ => false end.
+  match k with AEmbedded | ARemoteEmbedded | AEmbeddedAia | AEmbeddedStapled | AEmbeddedStapledUnusable => true | _ => false end.
 Definition has_ref (k : akind) : bool :=
   match k with ARemoteOnly | ARemoteEmbedded | ARemoteOnlyAia => true | _ => false end.
-Definition aia (k : akind) : bool := match k with AEmbeddedAia | ARemoteOnlyAia => true | _ => false end.
+Definition aia (k : akind) : bool :=
+  match k with AEmbeddedAia | ARemoteOnlyAia | AEmbeddedStapledUnusable => true | _ => false end.
 Definition remote_only (k : akind) : bool := match k with ARemoteOnly | ARemoteOnlyAia => true | _ => false end.
-Definition stapled (k : akind) : bool := match k with AEmbeddedStapled => true | _ => false end.
+(* get_ocsp_der(sign1).is_some(): a response is stapled (Claim::has_ocsp_vals looks at presence only) *)
+Definition stapled (k : akind) : bool :=
+  match k with AEmbeddedStapled | AEmbeddedStapledUnusable => true | _ => false end.
+(* check_stapled_ocsp_response is Ok and logged revoked / not revoked: check_ocsp_status returns there *)
+Definition staple_settles (k : akind) : bool := match k with AEmbeddedStapled => true | _ => false end.
+(* claims of the asset's store that are verified (active manifest + ingredient manifests) *)
+Definition nclaims (k : akind) : nat := match k with AEmbeddedStapledUnusable => 2%nat | _ => 1%nat end.
 
 Inductive loaded := LEmbedded | LRemote | LErr (o : outcome).
 
@@ -62,7 +73,7 @@ Definition load_jumbf (c : cfg) (a : asset) (served : bool) : list req * loaded 
 
 (* check_ocsp_status for the claim(s) of the asset's manifest *)
 Definition ocsp_check (c : cfg) (k : akind) : list req :=
-  if stapled k then [] else if ocspf c then (if aia k then [ROcsp] else []) else [].
+  if staple_settles k then [] else if ocspf c then (if aia k then repeat ROcsp (nclaims k) else []) else [].
 
 (* get_manifest_labels_for_ocsp + get_ocsp_response_ders: claims without stapled values, responder needed *)
 Definition status_fetch (c : cfg) (k : akind) : list req :=
@@ -105,7 +116,8 @@ Definition all_cfg : list cfg :=
   [C false false false; C false false true; C false true false; C false true true;
    C true false false; C true false true; C true true false; C true true true].
 Definition all_kinds : list akind :=
-  [AEmbedded; ARemoteOnly; ARemoteEmbedded; ANone; AEmbeddedAia; AEmbeddedStapled; ARemoteOnlyAia].
+  [AEmbedded; ARemoteOnly; ARemoteEmbedded; ANone; AEmbeddedAia; AEmbeddedStapled; ARemoteOnlyAia;
+   AEmbeddedStapledUnusable].
 Definition all_signers : list signer := [SNoTsa; STsa].
 Definition all_ops : list opk := [OpRead; OpIngredient; OpSign].
 Definition all_bools : list bool := [false; true].
@@ -121,7 +133,8 @@ Definition is_tsa (r : req) := match r with RTsa => true | _ => false end.
 Definition akind_eqb (a b : akind) : bool :=
   match a, b with
   | AEmbedded, AEmbedded | ARemoteOnly, ARemoteOnly | ARemoteEmbedded, ARemoteEmbedded | ANone, ANone
-  | AEmbeddedAia, AEmbeddedAia | AEmbeddedStapled, AEmbeddedStapled | ARemoteOnlyAia, ARemoteOnlyAia => true
+  | AEmbeddedAia, AEmbeddedAia | AEmbeddedStapled, AEmbeddedStapled | ARemoteOnlyAia, ARemoteOnlyAia
+  | AEmbeddedStapledUnusable, AEmbeddedStapledUnusable => true
   | _, _ => false
   end.
 
